@@ -74,6 +74,10 @@ func (c17) Generate(r *engine.Rand, index int, tier string) *engine.Scenario {
 	sc := &engine.Scenario{}
 	g := &progGen{r: r, base: lsCodeWRAM}
 	g.emitStackSetup()
+	if r.Chance(2, 3) {
+		// LCDC rewritten with the LCD left on: objects on or off, their size, window, tile maps
+		g.emit(0x3e, 0x80|r.Byte()&0x7f, 0xe0, 0x40)
+	}
 	switch index % 3 {
 	case 0, 1:
 		sc.Class = "off"
@@ -93,6 +97,10 @@ func (c17) Generate(r *engine.Rand, index int, tier string) *engine.Scenario {
 			g.emit(0x00)
 		}
 		g.emit(0x3e, r.Byte()&0x7f, 0xe0, 0x40) // LCD off
+		for i, n := 0, r.Intn(3); i < n; i++ {
+			// stores to LY (read-only), STAT, LYC and LCDC (bit 7 clear again) with the LCD off
+			g.emit(0x3e, r.Byte()&0x7f, 0xe0, engine.Pick(r, []uint8{0x44, 0x44, 0x41, 0x45, 0x40}))
+		}
 		c17Block(g, r.Range(4, 30))
 	case 2:
 		if index%6 == 5 {
